@@ -53,7 +53,7 @@ PROPS = {
                 pending=['session_partial (per-call statement for closure-free histories)', 'prefix clause for hosts that swallow the limit error (try_apply) is not claimed by the property']),
     'C02': dict(obligations=lambda: P('SqProps.C02') + TIE_FN + TIE_IMP + TIE_GRAM,
                 slices=['builtin_args'], monitors=['c02'],
-                pending=['plain_step (the same invariant for whole machine runs: frames, iteration state, probes); plain data through every one of the 42 table entries is proved']),
+                pending=['the I/O half (no file / process / network / import / dynamic execution) is not a theorem about the model: external-call whitelist tie + audit-hook monitor']),
     'C03': dict(obligations=lambda: P('SqProps.C03') + T('SqTie.Consts', 'max_array_size_tie') + TIE_FN,
                 slices=['ops'], monitors=['c03'],
                 pending=['bound_step_partial (global length bound outside concat / str->list conversions)']),
